@@ -251,7 +251,7 @@ func extractAccesses(repo, root string) error {
 	x := &accExtractor{repo: repo, fset: token.NewFileSet(), tracked: map[*types.TypeName]string{}, atomicTy: map[string]bool{},
 		funcs: map[*types.Func]*funcNode{}, usedAnn: map[string]bool{}, nclosure: map[string]int{},
 		methodsNamed: map[string][]*funcNode{}, aliases: map[string]map[string]bool{}, ourPkgs: map[*types.Package]*pkgInfo{}, trackedNames: map[string]bool{}}
-	ab, err := os.ReadFile(filepath.Join(root, "go", "extract", "access_annotations.json"))
+	ab, err := os.ReadFile(filepath.Join(root, "go", "extract", "accesses", "access_annotations.json"))
 	if err != nil {
 		return err
 	}
@@ -1612,7 +1612,7 @@ func (x *accExtractor) emit(root string) error {
 		}
 	}
 	var sb strings.Builder
-	sb.WriteString("/-\nGen/Accesses.lean — GENERATED by go/extract/accesses.go from the working tree of kafka-go. DO NOT EDIT.\n")
+	sb.WriteString("/-\nGen/Accesses.lean — GENERATED by go/extract/accesses/accesses.go from the working tree of kafka-go. DO NOT EDIT.\n")
 	sb.WriteString("The lock-set access table of the goroutine-safe types (C10), grouped by field.\n-/\nimport KafkaVerif.Model.Lockset\n\nnamespace KV.Gen\nopen KV.Lockset\n\n")
 	render := func(r *accRow) string {
 		var hs []string
